@@ -387,8 +387,8 @@ struct _mask_xtensa mask_xtensa[] =
   { 0xfff0bf, 0xfb0fff, 24, AR, MW,  0 },  // XTENSA_OP_AS_MY
   { 0xffbf0f, 0xf0fbff, 24, MW, AR,  0 },  // XTENSA_OP_MX_AT
   { 0xffb0bf, 0xfb0bff, 24, MW, MW,  0 },  // XTENSA_OP_MX_MY
-  { 0xfc800f, 0xf008cf, 24, MW, AR, MW },  // XTENSA_OP_MW_AS_MX_AT
-  { 0xfc80bf, 0xfb08cf, 24, MW, AR, MW },  // XTENSA_OP_MW_AS_MX_MY
+  { 0xff800f, 0xf008ff, 24, MW, AR, MW },  // XTENSA_OP_MW_AS_MX_AT
+  { 0xff80bf, 0xfb08ff, 24, MW, AR, MW },  // XTENSA_OP_MW_AS_MX_MY
   { 0xff000f, 0xf000ff, 24, BR, FR, FR },  // XTENSA_OP_BR_FS_FT
   { 0xfff0ff, 0xff0fff, 24,  0,  0,  0 },  // XTENSA_OP_0_15
   { 0xff00ff, 0xff00ff, 24, AR, FR,  0 },  // XTENSA_OP_AR_FS
